@@ -521,6 +521,10 @@ class Interp:
             if var is None:
                 if names is not None:
                     self.prog.note_fields(ty, names)
+                elif ty not in self.prog.fields:
+                    bv = self.prog.bare_variant(ty)
+                    if bv is not None:
+                        return Adt(bv[0], bv[1], vals)
                 return Adt(ty, 0, vals)
             idx = self.prog.variant_index(ty, var)
             if idx is None:
